@@ -5,6 +5,7 @@ import (
 	"time"
 
 	"github.com/superfly/litefs/verifharness/core"
+	"github.com/superfly/litefs/verifharness/faults"
 	"github.com/superfly/litefs/verifharness/repl"
 )
 
@@ -17,5 +18,7 @@ func main() {
 	repl.Main(rep, args, map[string]bool{"C15": true}, []repl.Stage{
 		{Name: "repl-drop-3n-3tx-1fault", Cfg: "MC_Repl_drop.cfg", Timeout: 10 * time.Minute, MaxKeep: core.Pick(args, 70, 500), Need: "Drop"},
 	})
+	// failure paths (spec/Faults.tla): every call of the operation through the OS interface fails once
+	faults.Run(rep, args, faults.Select{Ops: []string{"drop"}, Monitors: []string{"effect"}})
 	rep.Finish()
 }
